@@ -64,6 +64,12 @@ def run(case):
                         d = o.destructive_copy()
                         if not (d == o):
                             flags.append("destructive-copy-unequal")
+                    # a copy whose tempo trajectory is edited IN PLACE at time 0 differs in its tempo: it must compare
+                    # unequal (the comparisons above have already read the tempo of `o` and of its copy)
+                    if isinstance(c.tempo, cp.FlexTempo) and len(c.tempo) > 0:
+                        c.tempo[0].tempo = cp.DirectTempo(c.tempo[0].tempo.bpm + 30)
+                        if c == o or o == c or not (c != o):
+                            flags.append("copy-with-edited-first-tempo-point-still-equal")
             if flags:
                 out.append(["flags"] + sorted(set(flags)))
             return out
